@@ -982,7 +982,7 @@ def mdLens (h : H5) (p : Path) (n : Nat) : Option Bool :=
         | some k => some (k == n)) (some true)
   | _ => none
 
-/-- `_valid_hdf5_metadata_v210`: `some true` = no message; it never changes `valid_table` -/
+/-- `_valid_hdf5_metadata_v210`: `some true` = no message -/
 def mdV210 (h : H5) : Option Bool :=
   if !(mdGroups.all h.has) then some false
   else
@@ -994,7 +994,8 @@ def mdV210 (h : H5) : Option Bool :=
        | some true => mdLens h ["sample", "metadata"] ns)
     | _, _ => none
 
-/-- the version block only adds report lines (or raises) -/
+/-- the version block: a message (version mismatch or a failed metadata check) makes the table
+    invalid (repair dd41daf0), an exception aborts -/
 def versionBlock (h : H5) : Option Bool :=
   match h.attr "format-version" with
   | none => some true
@@ -1015,13 +1016,11 @@ def checksH (dateOk : String → Bool) (h : H5) : List (Option Bool) :=
     attrCheck h "creation-date" (hDate dateOk) ] ++
   coreGroups.map (fun p => some (h.has p)) ++
   requiredDatasets.map (fun p => some (h.has p)) ++
-  shapeBlock h
+  shapeBlock h ++ [versionBlock h]
 
-def validateH5 (dateOk : String → Bool) (h : H5) : Verdict3 :=
-  if (versionBlock h).isNone then .crash else verdictOf (checksH dateOk h)
+def validateH5 (dateOk : String → Bool) (h : H5) : Verdict3 := verdictOf (checksH dateOk h)
 
-def reportLinesH5 (dateOk : String → Bool) (h : H5) : Nat :=
-  reportLines (checksH dateOk h) + (if versionBlock h == some false then 1 else 0)
+def reportLinesH5 (dateOk : String → Bool) (h : H5) : Nat := reportLines (checksH dateOk h)
 
 /-! ### structural facts of an HDF5 tree -/
 
@@ -1090,28 +1089,27 @@ def idsNonEmptyHB (h : H5) : Bool :=
 def idsDistinctHB (h : H5) : Bool :=
   strNodupB ((strsOf h ["observation", "ids"]).getD []) && strNodupB ((strsOf h ["sample", "ids"]).getD [])
 
-def isGroupOrAbsent (h : H5) (p : Path) : Bool :=
-  match h.get p with
-  | some .group => true
-  | some _ => false
-  | none => true
+/-- in a 2.1 file per-ID metadata is a group of datasets on both axes -/
+def mdKindB (h : H5) : Bool :=
+  h.get ["observation", "metadata"] == some .group && h.get ["sample", "metadata"] == some .group
 
-/-- in a 2.1 file per-ID metadata is a group of datasets (observation axis: `.items()` raises otherwise) -/
-def mdHB (h : H5) : Bool :=
-  !(version21 h && mdGroupsB h) || isGroupOrAbsent h ["observation", "metadata"]
-
-/-- the same for the sample axis; it is reached only when no observation category has a wrong length -/
-def sampleMdHB (h : H5) : Bool :=
-  !(version21 h && mdGroupsB h) || isGroupOrAbsent h ["sample", "metadata"]
+/-- every metadata category has one entry per ID -/
+def mdLensB (h : H5) : Bool :=
+  match h.lenOf ["observation", "ids"], h.lenOf ["sample", "ids"] with
+  | some n, some m =>
+    (h.children ["observation", "metadata"]).all (fun c => h.lenOf c.1 == some n) &&
+    (h.children ["sample", "metadata"]).all (fun c => h.lenOf c.1 == some m)
+  | _, _ => false
 
 /-- conjuncts the validator enforces -/
 def checkedConjunctsH (h : H5) : List (String × Bool) :=
-  [ ("requiredAttrs", attrsB h), ("requiredGroups", coreGroupsB h), ("requiredDatasets", datasetsB h),
-    ("shape", shapeHB h), ("mdIsGroup", mdHB h) ]
+  [ ("requiredAttrs", attrsB h), ("requiredGroups", coreGroupsB h && mdGroupsB h),
+    ("requiredDatasets", datasetsB h), ("shape", shapeHB h), ("formatVersion21", version21 h),
+    ("mdIsGroup", mdKindB h), ("mdLengths", mdLensB h) ]
 
 /-- conjuncts of the property the validator does not look at (the known finding) -/
 def uncheckedConjunctsH (h : H5) : List (String × Bool) :=
-  [ ("mdGroupsPresent", mdGroupsB h), ("sampleMdIsGroup", sampleMdHB h), ("indicesInRange", indicesB h), ("elementsTyped", typedHB h),
+  [ ("indicesInRange", indicesB h), ("elementsTyped", typedHB h),
     ("idsNonEmpty", idsNonEmptyHB h), ("idsDistinct", idsDistinctHB h) ]
 
 def checkedH (h : H5) : Bool := (checkedConjunctsH h).all (fun p => p.2)
@@ -1171,8 +1169,8 @@ def writerTreeB (dateOk : String → Bool) (h : H5) : Bool :=
    | some (.ints [r, c]), some n, some m =>
      (n : Int) == r && (m : Int) == c &&
      h.get ["observation", "metadata"] == some .group && h.get ["sample", "metadata"] == some .group &&
-     (h.children ["observation", "metadata"]).all (fun c => (h.lenOf c.1).isSome) &&
-     (h.children ["sample", "metadata"]).all (fun c => (h.lenOf c.1).isSome)
+     (h.children ["observation", "metadata"]).all (fun c => h.lenOf c.1 == some n) &&
+     (h.children ["sample", "metadata"]).all (fun c => h.lenOf c.1 == some m)
    | _, _, _ => false)
 
 /-! ### mutation grammar (HDF5) -/
@@ -1198,6 +1196,7 @@ inductive HMutation where
   | blankId (ax : HAxis) (i : Nat)
   | dropLastId (ax : HAxis)
   | groupToDataset (p : Path)
+  | resizeDataset (p : Path) (k : Nat)
   deriving Repr
 
 def isPrefixPath (p q : Path) : Bool := p.isPrefixOf q
@@ -1259,6 +1258,11 @@ def applyH : HMutation → H5 → H5
     if h.has p then
       { h with nodes := (h.nodes.filter (fun n => !(isPrefixPath p n.1))) ++ [(p, .ds none (.ints [0]))] }
     else h
+  | .resizeDataset p k, h =>
+    updNode h p (fun n =>
+      match n with
+      | .ds _ _ => .ds (some k) (.reals k)
+      | n => n)
 
 def applyAllH (ms : List HMutation) (h : H5) : H5 := ms.foldl (fun d m => applyH m d) h
 
@@ -1453,6 +1457,7 @@ def asHMutation (j : Json) : R HMutation := do
   | "blankId" => pure (.blankId (← asHAxis (← fld j "ax")) (← natF j "i"))
   | "dropLastId" => pure (.dropLastId (← asHAxis (← fld j "ax")))
   | "groupToDataset" => pure (.groupToDataset (← listF asStr j "p"))
+  | "resizeDataset" => pure (.resizeDataset (← listF asStr j "p") (← natF j "k"))
   | s => .error s!"bad h5 mutation {s}"
 
 /-- node lists are compared as sets of (path, node): h5py's visiting order is not an observation -/
